@@ -2,7 +2,8 @@
 // has an own JID.  Operations: setSecurityPolicy, QXmppTrustManager::setTrustLevel (seeding levels the key store /
 // UI would set), the public manual QXmppAtmManager::makeTrustDecisions, and received trust messages (a real
 // QXmppMessage with QXmppTrustMessageElement / QXmppTrustMessageKeyOwner, serialised to XML and parsed back, the
-// sender key conveyed through QXmppE2eeMetadata like the decryption layer does) fed to handleMessage().
+// sender key conveyed through QXmppE2eeMetadata like the decryption layer does; any message type; sometimes duplicated) fed to
+// handleMessage() directly or through QXmppClient::messageReceived.
 // After EVERY step all trust levels and all held-back ("postponed") decisions of both encryption namespaces are
 // read back through the storage API and printed canonically together with the trustLevelsChanged emissions.
 // The property oracle below is written from the property text and keeps its own books; it never looks at the model.
@@ -336,7 +337,7 @@ public:
                 bool ok = contested(r) ? (got == L_AUTH || got == L_MANDIS) : got == expected;
                 // a trusted key may be distrusted later in the same cascade by another fired decision
                 if (!ok && r.trust && got == L_MANDIS) { ok = true; stat("fired_then_distrusted_same_step"); }
-                if (!ok && !strict && sameIdDecided) { stat("cross_owner_superseded_in_cascade"); fail("C18:cross-account-discard:superseded", recText(r)); continue; }
+                if (!ok && !strict && sameIdDecided) { stat("cross_owner_superseded_in_cascade"); fail("C18:cross-account-discard", recText(r)); continue; }
                 if (!ok) fail("C18:postponed-not-applied", recText(r) + " got " + std::to_string(got));
                 else if (inLibAfter) fail("C18:postponed-not-removed", recText(r));
                 else { oraclePass()++; stat("held_decision_fired"); }
@@ -374,6 +375,10 @@ public:
                     if (a.level(acc2, r.sk) == L_MANDIS) otherDisNow = true;
                 }
                 const bool tookEffect = got == expected && b.level(r.owner, r.key) != expected;
+                bool newlyAuthInScope = false;   // the sender key ID became authenticated in this step for the own account or for the decision's owner
+                for (int acc2 = 0; acc2 < NACC; acc2++) if (acc2 != r.sacc && (acc2 == own || acc2 == r.owner) && a.level(acc2, r.sk) == L_AUTH && b.level(acc2, r.sk) != L_AUTH) newlyAuthInScope = true;
+                bool crossSuperseded = false;   // another held decision with the same verdict for the same key ID of ANOTHER owner was consumed in this step
+                for (auto &q : P) if (q.key == r.key && q.trust == r.trust && q.owner != r.owner && b.pp.count(PEntry(q.sk, q.owner, q.key, q.trust)) && !a.pp.count(PEntry(q.sk, q.owner, q.key, q.trust))) crossSuperseded = true;
                 const bool overwritten = op.kind == Op::Msg && op.sk == r.sk && op.acc != r.sacc && a.pp.count(PEntry(r.sk, r.owner, r.key, !r.trust));
                 if (overwritten) stat("cross_owner_overwritten");   // R4: needs two accounts' devices that really share a key pair (sender key IDs are verified by decryption)
                 else if ((otherAuth || otherDisNow) && tookEffect) {
@@ -386,13 +391,20 @@ public:
                     for (int acc2 = 0; acc2 < NACC; acc2++) if (acc2 != r.sacc && (a.level(acc2, r.sk) == L_AUTH || a.level(acc2, r.sk) == L_MANDIS) && (acc2 == own || acc2 == r.owner)) inScopeOfOther = true;
                     if (inScopeOfOther) stat("fired_by_key_id_other_account");
                     else { stat("cross_owner_fired"); fail("C18:cross-owner-key-id", recText(r)); }
-                } else if (otherDisNow) {
+                } else if (got == expected && newlyAuthInScope) {
+                    stat("fired_by_key_id_other_account");   // R1 without a visible effect: the key already had the level the decision asks for
+                } else if (!crossSuperseded && otherDisNow) {
                     // R3: a key with the sender's ID was distrusted for ANOTHER account: the held decision is thrown away although its own sender key
                     // was neither authenticated nor distrusted (anybody entitled to distrust one of his own keys can name that ID)
-                    stat("cross_owner_discarded"); fail("C18:cross-account-discard:distrust", recText(r));
-                } else if (sameIdDecided) {
+                    // Tolerated (and counted), as for R1, when the account the ID was distrusted for could have decided about r's key itself: the own
+                    // account or the account the decision is about (or the step was started by an own key / own device).
+                    bool inScopeOfOther = (op.kind == Op::Msg && op.acc == own) || (op.kind == Op::Man && op.o == own);
+                    for (int acc2 = 0; acc2 < NACC; acc2++) if (acc2 != r.sacc && a.level(acc2, r.sk) == L_MANDIS && (acc2 == own || acc2 == r.owner)) inScopeOfOther = true;
+                    if (inScopeOfOther) stat("discarded_by_key_id_other_account");
+                    else { stat("cross_owner_discarded"); fail("C18:cross-account-discard", recText(r)); }
+                } else if (sameIdDecided || crossSuperseded) {
                     // R2: a fired decision with the same verdict for the same key ID of ANOTHER owner removed it (removal is by verdict and key ID)
-                    stat("cross_owner_superseded"); fail("C18:cross-account-discard:superseded", recText(r));
+                    stat("cross_owner_superseded"); fail("C18:cross-account-discard", recText(r));
                 } else if (otherAuth) stat("cross_owner_fired_without_effect");
                 else fail("C18:held-entry-vanished", recText(r));
                 continue;
